@@ -36,7 +36,8 @@ type multi []string
 func (m *multi) String() string     { return strings.Join(*m, ",") }
 func (m *multi) Set(s string) error { *m = append(*m, s); return nil }
 
-const repo = "/repo"
+var repo = "/repo"
+
 const mcrtPath = "github.com/paulmach/orb/zzverif/mcrt"
 
 const mcrtSrc = `// Package mcrt is the run-time half of the verification instrumentation.
@@ -379,6 +380,7 @@ func main() {
 	flag.Var(&mapranges, "maprange", "package dir to rewrite map ranges in")
 	flag.Var(&globals, "globals", "package dir to add a globals accessor to")
 	flag.StringVar(&outDir, "out", "", "output directory")
+	flag.StringVar(&repo, "repo", "/repo", "checkout of paulmach/orb to instrument")
 	flag.Parse()
 	if outDir == "" {
 		die("-out required")
